@@ -1075,6 +1075,27 @@ fn run_case(line: &str) -> String {
             let x = Placed::new(&bytes_expr(f.next().unwrap()), salt);
             show_auto(&HeaderResult::parse(x.as_slice()))
         }
+        "pipe" => {
+            // a receiver of pipelined headers: parse, remove exactly the reported header bytes, repeat (at most 64 frames)
+            let x = Placed::new(&bytes_expr(f.next().unwrap()), salt);
+            let buf = x.as_slice();
+            let mut off = 0usize;
+            let mut frames: Vec<String> = Vec::new();
+            while frames.len() < 64 {
+                match HeaderResult::parse(&buf[off..]) {
+                    HeaderResult::V1(Ok(h)) => {
+                        frames.push(format!("1:{}", h.header.len()));
+                        off += h.header.len();
+                    }
+                    HeaderResult::V2(Ok(h)) => {
+                        frames.push(format!("2:{}", h.len()));
+                        off += h.len();
+                    }
+                    _ => break,
+                }
+            }
+            format!("P={} R={}", if frames.is_empty() { "-".to_string() } else { frames.join(",") }, buf.len() - off)
+        }
         "tlv" => {
             let x = Placed::new(&bytes_expr(f.next().unwrap()), salt);
             show_tlvs(v2::TypeLengthValues::from(x.as_slice()))
